@@ -561,6 +561,73 @@ theorem yield_files_eq_successive_reads_newick (cfg : Cfg) (fl : Flags) : ∀ (d
       | error e => simp [Except.map]
       | ok r2 => simp [Except.map]
 
+/-- `yield_eq_list_nexus` with the two routes started from namespace objects that agree in their LABELS only (the iterator never
+    looks at the title; successive calls hand on different titles): whenever `TreeList.get` reads the source from `ns`, the
+    iterator started from `ns0` delivers the same trees and leaves the same labels -/
+theorem yield_eq_list_nexus_labels (cfg : Cfg) (fl : Flags) (hx : fl.excludeChars = true)
+    (toks : List Tok) (tail : List String) (ns ns0 ns' : NSObj) (trees : List Tree) (hl : ns0.labels = ns.labels)
+    (hlist : listGet .nexus cfg fl toks tail ns [] none none = .ok (trees, ns'))
+    (hs : setsClean cfg (att fl) { (coreOf toks tail ns0) with ts := (coreOf toks tail ns0).ts.next } [] = true) :
+    ∃ ns'', yieldFrom .nexus cfg fl toks tail ns0 = .ok (trees, ns'') ∧ ns''.labels = ns'.labels := by
+  simp only [listGet, readWith] at hlist
+  cases hr : nexusRead cfg fl pseudoSink (coreOf toks tail ns) [] with
+  | error e => simp [hr, Except.map] at hlist
+  | ok r =>
+    simp only [hr, Except.map] at hlist
+    cases hlist
+    have hA := nexusRead_att cfg fl pseudoSink (coreOf toks tail ns) [] r hr 0 ns0.title
+    have e0 : setReg (coreOf toks tail ns) 0 ns0.title = coreOf toks tail ns0 := by
+      simp [coreOf, setReg, hl]
+    rw [e0] at hA
+    have hY := reader_eq_yielder cfg (att fl) hx (coreOf toks tail ns0) [] hs
+    refine ⟨{ labels := r.1.ns, title := ns0.title }, ?_, rfl⟩
+    show (nexusYield cfg (att fl) (coreOf toks tail ns0) []).map _ = _
+    rw [hY, hA]
+    rfl
+
+/-- NEXUS, several sources in one call, both sides as the driver runs them (ops `yieldfiles` and `readmany`): whenever
+    `tl = TreeList(); tl.read(a); tl.read(b); …` (reader front end, a new reader per call, namespace NOT attached) reads the
+    sources, `Tree.yield_from_files([a, b, …])` (ONE iterator object, namespace attached, per-file reader state reset — the
+    repaired code) delivers, file after file, exactly those trees in that order and leaves a namespace with the same labels.
+    For any number of sources, every option set and starting namespace; hypothesis `filesClean` = `setsClean` for every file at
+    the namespace the iterator reaches it with.  One direction and success only, as `yield_eq_list_nexus` (the converse fails
+    by design: several TAXA blocks).  The namespaces the two chains hand from file to file differ in their titles only, which the
+    attached route never looks at (`yield_eq_list_nexus_labels`). -/
+theorem yield_files_eq_successive_reads_nexus (cfg : Cfg) (fl : Flags) (hx : fl.excludeChars = true) :
+    ∀ (ds : List Content) (ns ns0 ns' : NSObj) (l : List Tree), ns0.labels = ns.labels →
+      readMany .nexus cfg fl ds ns [] = .ok (l, ns') → filesClean cfg fl ds ns0 = true →
+      ∃ tss ns'', yieldFiles .nexus cfg fl ds ns0 = .ok (tss, ns'') ∧ tss.flatten = l ∧ ns''.labels = ns'.labels := by
+  intro ds
+  induction ds with
+  | nil =>
+    intro ns ns0 ns' l hl h _
+    simp only [readMany] at h
+    cases h
+    exact ⟨[], ns0, rfl, rfl, hl⟩
+  | cons d ds ih =>
+    intro ns ns0 ns' l hl h hc
+    simp only [readMany] at h
+    cases h1 : listGet .nexus cfg fl d.toks d.tail ns [] none none with
+    | error e => simp [h1] at h
+    | ok r =>
+      obtain ⟨l1, ns1⟩ := r
+      simp only [h1] at h
+      rw [readMany_prefix] at h
+      cases h2 : readMany .nexus cfg fl ds ns1 [] with
+      | error e => simp [h2, Except.map] at h
+      | ok r2 =>
+        obtain ⟨l2, ns2⟩ := r2
+        simp only [h2, Except.map] at h
+        cases h
+        simp only [filesClean, Bool.and_eq_true] at hc
+        obtain ⟨hc1, hc2⟩ := hc
+        obtain ⟨ns1', hy, hl1⟩ := yield_eq_list_nexus_labels cfg fl hx d.toks d.tail ns ns0 ns1 l1 hl h1 hc1
+        simp only [hy] at hc2
+        obtain ⟨tss, ns'', hys, hfl, hl2⟩ := ih ns1 ns1' _ _ hl1 h2 hc2
+        refine ⟨l1 :: tss, ns'', ?_, ?_, hl2⟩
+        · simp only [yieldFiles, hy, hys]
+        · simp [hfl]
+
 /-- several sources in one call = the first source, then the rest from the namespace the first one left (any schema): nothing
     but the namespace is carried from one file to the next (REPAIRED behaviour for the NEXUS iterator, see `yieldFiles`) -/
 theorem yield_files_append (sch : Schema) (cfg : Cfg) (fl : Flags) : ∀ (ds es : List Content) (ns : NSObj),
@@ -1097,6 +1164,30 @@ example : ∃ r ns'', readWith .nexus {} (att {}) pseudoSink docT [] {} [] = .ok
   obtain ⟨x, hx, hlen⟩ := docT_list
   obtain ⟨ns'', h, _⟩ := attached_reader_simulates {} {} pseudoSink docT [] {} x.2 [] x.1 (by simpa [listGet] using hx)
   exact ⟨x.1, ns'', h, hlen⟩
+
+/-- two NEXUS sources in one call, `docT` then `docN`: the successive reads succeed, every file is clean, hence the iterator over both
+    delivers the one tree -/
+example : ∃ tss ns'', yieldFiles .nexus {} {} [{ toks := docT, tail := [] }, { toks := docN, tail := [] }] {} = .ok (tss, ns'') ∧
+    tss.flatten.length = 1 := by
+  obtain ⟨r, hr, hlen⟩ := docT_list
+  have hN : ∀ (ns : NSObj) (l : List Tree), listGet .nexus {} {} docN [] ns l none none = .ok (l, ns) := by
+    intro ns l
+    cases ns
+    simp [listGet, readWith, nexusRead, coreOf, docN, tk, TS.next, TS.step, streamLoopR.eq_def, Except.map, pseudoSink, up1]
+  have hread : readMany .nexus {} {} [{ toks := docT, tail := [] }, { toks := docN, tail := [] }] {} [] = .ok (r.1, r.2) := by
+    simp [readMany, hr, hN]
+  have hclean : filesClean {} {} [{ toks := docT, tail := [] }, { toks := docN, tail := [] }] {} = true := by
+    simp only [filesClean, Bool.and_eq_true]
+    refine ⟨docT_clean, ?_⟩
+    cases hy : yieldFrom .nexus {} {} docT [] {} with
+    | error e => rfl
+    | ok x =>
+      simp only []
+      rw [setsClean.eq_def]
+      simp [coreOf, docN, tk, TS.next, TS.step]
+      split <;> rfl
+  obtain ⟨tss, ns'', h, hf, _⟩ := yield_files_eq_successive_reads_nexus {} {} rfl _ {} {} r.2 r.1 rfl hread hclean
+  exact ⟨tss, ns'', h, by rw [hf]; exact hlen⟩
 
 /-- two NEWICK sources in one call: `a; a;` — the iterator over both = two successive reads -/
 example : (yieldFiles .newick {} {} [{ toks := docA, tail := [] }, { toks := docA, tail := [] }] {}).map (fun r => (r.1.flatten, r.2))
